@@ -680,6 +680,70 @@ func valToDoc(v reflect.Value) *doc.Node {
 }
 
 // foldEmpty folds empty containers of an expected tree to null, like valToDoc does.
+// valToDocStrict is valToDoc with nil and empty containers told apart (nil -> null, empty -> empty).
+func valToDocStrict(v reflect.Value) *doc.Node {
+	if !v.IsValid() {
+		return doc.Null()
+	}
+	if v.CanInterface() {
+		if om, ok := v.Interface().(*ordered.MapSA); ok {
+			if om == nil {
+				return doc.Null()
+			}
+			n := &doc.Node{Kind: doc.KMap, Map: []doc.Pair{}}
+			_ = om.Range(func(k string, e any) error {
+				n.Map = append(n.Map, doc.P(k, valToDocStrict(reflect.ValueOf(e))))
+				return nil
+			})
+			sort.Slice(n.Map, func(a, b int) bool { return n.Map[a].Key < n.Map[b].Key })
+			return n
+		}
+	}
+	switch v.Kind() {
+	case reflect.Interface, reflect.Pointer:
+		if v.IsNil() {
+			return doc.Null()
+		}
+		return valToDocStrict(v.Elem())
+	case reflect.Struct:
+		n := &doc.Node{Kind: doc.KMap, Map: []doc.Pair{}}
+		for i := 0; i < v.NumField(); i++ {
+			n.Map = append(n.Map, doc.P(v.Type().Field(i).Name, valToDocStrict(v.Field(i))))
+		}
+		return n
+	case reflect.Map:
+		if v.IsNil() {
+			return doc.Null()
+		}
+		keys := v.MapKeys()
+		sort.Slice(keys, func(i, j int) bool { return fmt.Sprint(keys[i]) < fmt.Sprint(keys[j]) })
+		n := &doc.Node{Kind: doc.KMap, Map: []doc.Pair{}}
+		for _, k := range keys {
+			n.Map = append(n.Map, doc.P(fmt.Sprint(k.Interface()), valToDocStrict(v.MapIndex(k))))
+		}
+		return n
+	case reflect.Slice:
+		if v.Len() == 0 {
+			return doc.Null() // an empty list into a slice field: yaml.v3 makes an empty slice, the library leaves nil - not told apart (see DESIGN, C16 "not demanded")
+		}
+		n := &doc.Node{Kind: doc.KSeq, Seq: []*doc.Node{}}
+		for i := 0; i < v.Len(); i++ {
+			n.Seq = append(n.Seq, valToDocStrict(v.Index(i)))
+		}
+		return n
+	case reflect.String:
+		return doc.S(v.String())
+	case reflect.Bool:
+		return doc.B(v.Bool())
+	case reflect.Int, reflect.Int64:
+		return doc.I(v.Int())
+	case reflect.Float64:
+		return doc.F(v.Float())
+	}
+	return doc.S(fmt.Sprintf("<%s>", v.Type()))
+}
+
+// foldEmpty folds empty containers of an expected tree to null, like valToDoc does.
 func foldEmpty(n *doc.Node) *doc.Node {
 	switch n.Kind {
 	case doc.KSeq:
@@ -1068,7 +1132,7 @@ func checkC16(c *run.Ctx) {
 					c.Violation(id, map[string]any{"what": "well-typed document rejected on a fresh value: " + err.Error(), "type": rt.String(), "document": string(text)})
 					return
 				}
-				if diff := doc.Equal(valToDoc(ref.Elem()), valToDoc(fresh.Elem()), doc.EqOpts{}); diff != "" {
+				if diff := doc.Equal(valToDocStrict(ref.Elem()), valToDocStrict(fresh.Elem()), doc.EqOpts{}); diff != "" {
 					c.Violation(id, map[string]any{"what": "result differs from yaml.v3's own decoder for an alias-free type and well-typed document: " + diff,
 						"type": rt.String(), "document": string(text), "yaml_v3": valToDoc(ref.Elem()).String(), "go_pipeline": valToDoc(fresh.Elem()).String()})
 					return
